@@ -1,10 +1,18 @@
 /-
   C05 — Message reader rejects a protocol violation at the first offending frame.
-  Frame-level wiring theorems (the k-th-frame statement over whole streams builds on C04's
-  refinement theorem and is in progress).
+  Frame-level wiring theorems, and the stream level: `reject_at_first_bad` — a message whose
+  frames are valid up to some point (any fragments and interleaved control frames) followed by an
+  offending frame (a broken framing rule in the state built up so far, or a length over
+  MaxFrameSize): for every transport chunking and every sequence of caller buffers, the Reads
+  deliver exactly the data of the valid frames with no error, and the Read that reaches the
+  offending frame returns the protocol error (resp. ErrFrameTooLarge) with zero bytes, the
+  transport standing right behind the offending header: not one payload byte of it was read.
+  `first_frame_rejected` is the same for an offending frame at the start of a message.
+  Scope as for C04.message_delivered (no receive extension, CheckUTF8 off, OnIntermediate unset).
 -/
 import WsVerif.Model.Helper
 import WsVerif.Props.C03
+import WsVerif.Props.C04
 namespace Ws.C05
 open Ws Ws.Spec
 
@@ -52,5 +60,102 @@ theorem accept_data_frame (r : Rd) (s s1 : Src) (cx : Ctx) (cb : Option Callback
     exact ⟨_, rfl, rfl, rfl, rfl, rfl, rfl, rfl, rfl⟩
   · simp only [hf, if_false]
     exact ⟨_, rfl, rfl, rfl, rfl, rfl, rfl, rfl, rfl⟩
+
+
+/-! ### stream level -/
+
+open Ws.RdProof
+
+/-- how the reader in configuration (skip, state st, limit maxF) refuses header `h` -/
+def RefusedWith (skip : Bool) (st maxF : Nat) (h : Header) (err : RErr) : Prop :=
+  (skip = false ∧ ∃ pe, checkHeader h st = some pe ∧ err = .proto pe)
+  ∨ ((if skip then none else checkHeader h st) = none ∧ maxF > 0 ∧ h.len > maxF ∧ err = .tooLarge)
+
+/-- NextFrame on an offending header, read off any chunking of the transport. -/
+theorem nextFrame_refuses (r : Rd) (s : Src) (cx : Ctx) (cb : Option Callback) (h : Header) (junk : Bytes) (err : RErr)
+    (hw : h.WF) (hb : s.bytes = rfcEncode h ++ junk) (hjw : Bytes.WF junk) (htame : Src.Tame s)
+    (hrej : RefusedWith r.skipCheck r.state r.maxFrame h err) :
+    ∃ s1, r.nextFrame s cx cb = (some h, some err, r, s1, cx) ∧ s1.bytes = junk := by
+  obtain ⟨s1, hrh, hb1, _, _⟩ := readHeader_ok h hw junk hjw s hb htame
+  refine ⟨s1, ?_, hb1⟩
+  rcases hrej with ⟨hs, pe, hc, he⟩ | ⟨hc, hm, hl, he⟩
+  · subst he; exact nextFrame_rejects r s s1 cx cb h pe hrh hs hc
+  · subst he; exact toolarge_before_payload r s s1 cx cb h hrh hc hm hl
+
+/-- An offending frame where a message should start: refused by NextFrame, nothing read of it. -/
+theorem first_frame_rejected (r : Rd) (s : Src) (cx : Ctx) (h : Header) (junk : Bytes) (err : RErr)
+    (hw : h.WF) (hb : s.bytes = rfcEncode h ++ junk) (hjw : Bytes.WF junk) (htame : Src.Tame s)
+    (hrej : RefusedWith r.skipCheck r.state r.maxFrame h err) :
+    ∃ s1, r.nextFrame s cx none = (some h, some err, r, s1, cx) ∧ s1.bytes = junk :=
+  nextFrame_refuses r s cx none h junk err hw hb hjw htame hrej
+
+/-- a Read that has to fetch the next fragment and finds an offending frame -/
+theorem read_at_end_refuses (ao skip : Bool) (st maxF : Nat) (r : Rd) (s : Src) (cx : Ctx) (k : Nat) (h : Header)
+    (junk : Bytes) (err : RErr) (hend : AtEnd ao skip st maxF (rfcEncode h ++ junk) r s [])
+    (hw : h.WF) (hrej : RefusedWith skip st maxF h err) :
+    ∃ s1, r.read s cx k none = some ([], 0, some err, r, s1, cx) ∧ s1.bytes = junk := by
+  have hc := hend.common
+  have hjw : Bytes.WF junk := by
+    have := hc.wf; rw [hend.bytes] at this; exact wf_append_right this
+  have hrej' : RefusedWith r.skipCheck r.state r.maxFrame h err := by
+    rw [hc.skip, hend.state, hc.maxF]; exact hrej
+  obtain ⟨s1, hnf, hb1⟩ := nextFrame_refuses r s cx none h junk err hw hend.bytes hjw hc.tame hrej'
+  refine ⟨s1, ?_, hb1⟩
+  have hfrag : r.fragmented = true := by simp [Rd.fragmented, hend.state, hc.stF]
+  unfold Rd.read
+  simp [hend.has, hfrag, hnf]
+
+/-- **C05, stream level.** `f0 :: fs` are the valid frames of a still open message; then comes a
+    frame with header `hbad` that the reader must refuse. -/
+theorem reject_at_first_bad (r0 : Rd) (s : Src) (cx : Ctx) (f0 : WFrame) (fs : List WFrame) (hbad : Header)
+    (junk : Bytes) (err : RErr) (ks : List Nat) (hpos : ∀ k ∈ ks, 0 < k)
+    (hidle : r0.hasFrame = false) (hnf : r0.fragmented = false) (hst : r0.state < 256)
+    (hext : r0.ext = false) (hu8 : r0.checkUTF8 = false)
+    (hok0 : f0.OK) (hdata0 : opIsControl f0.h.op = false) (hfin0 : f0.h.fin = false)
+    (hacc0 : AcceptsAt r0.skipCheck r0.state r0.maxFrame f0.h)
+    (htail : Tail true r0.skipCheck (stSet r0.state stFragmented) r0.maxFrame fs)
+    (hbw : hbad.WF) (hrej : RefusedWith r0.skipCheck (stSet r0.state stFragmented) r0.maxFrame hbad err)
+    (hb : s.bytes = encodeFs (f0 :: fs) ++ (rfcEncode hbad ++ junk)) (hwf : Bytes.WF s.bytes) (htame : Src.Tame s) :
+    ∃ r1 s1, r0.nextFrame s cx none = (some f0.h, none, r1, s1, cx) ∧
+      ((∃ out e r' s', reads r1 s1 cx ks = some (out, e, r', s', cx)
+          ∧ (∃ more, dataPlain (f0 :: fs) = out ++ more)
+          ∧ (e = none ∨ e = some .eof))
+       ∨ (∃ r' s', reads r1 s1 cx ks = some (dataPlain (f0 :: fs), some err, r', s', cx) ∧ s'.bytes = junk)) := by
+  obtain ⟨b1, b2, b3, b4⟩ := C04.stbits r0.state hst
+  let rest := rfcEncode hbad ++ junk
+  have hbytes : s.bytes = rfcEncode f0.h ++ (f0.wire ++ (encodeFs fs ++ rest)) := by
+    rw [hb]; simp [encodeFs, WFrame.enc, List.append_assoc, rest]
+  have hwt : Bytes.WF (f0.wire ++ (encodeFs fs ++ rest)) := by
+    rw [hbytes] at hwf; exact wf_append_right hwf
+  obtain ⟨s1, hrh, hb1, ht1, hmu1⟩ := readHeader_ok f0.h hok0.hwf _ hwt s hbytes htame
+  have hnext := nextFrame_data r0 s s1 cx none f0.h hrh hacc0 hext hdata0
+  let st := stSet r0.state stFragmented
+  have hc : Common r0.skipCheck st r0.maxFrame (enter r0 f0.h) s1 :=
+    ⟨by simp [enter, hext], by simp [enter, hu8], by simp [enter], by simp [enter], ht1, by rw [hb1]; exact hwt, b1, b2, b3⟩
+  have hpl : plainOf (enter r0 f0.h) f0.wire = f0.plain := rfl
+  have hdp : dataPlain (f0 :: fs) = plainOf (enter r0 f0.h) f0.wire ++ dataPlain fs := by
+    simp [dataPlain, hdata0, hpl]
+  have hsync : Sync true r0.skipCheck st r0.maxFrame rest (enter r0 f0.h) s1 (dataPlain (f0 :: fs)) := by
+    rw [hdp]
+    refine Sync.mid _ s1 f0.wire fs hc ?_ (by simp [enter, hfin0, st]) htail
+    exact ⟨by simp [enter], by simp [enter, hu8], hb1, by simp [enter, hok0.len],
+        by rw [hb1]; exact hwt, by simp [enter]; exact hok0.mwf, ht1⟩
+  refine ⟨enter r0 f0.h, s1, hnext, ?_⟩
+  rcases reads_sync true r0.skipCheck st r0.maxFrame rest ks hpos _ s1 cx _ hsync with
+    ⟨out, e, r', s', hrd, hcase⟩ | ⟨ks1, k2, ks2, out1, r1, s2, hks, hrd1, hrem, hend⟩
+  · left
+    refine ⟨out, e, r', s', hrd, ?_, ?_⟩
+    · rcases hcase with ⟨_, rem', h1, _, _⟩ | ⟨_, h1, _⟩
+      · exact ⟨rem', h1⟩
+      · exact ⟨[], by rw [h1]; simp⟩
+    · rcases hcase with ⟨h1, _⟩ | ⟨h1, _, _, _, _⟩
+      · exact Or.inl h1
+      · exact Or.inr h1
+  · right
+    obtain ⟨s3, hread, hb3⟩ := read_at_end_refuses true r0.skipCheck st r0.maxFrame r1 s2 cx k2 hbad junk err hend hbw hrej
+    refine ⟨r1, s3, ?_, hb3⟩
+    rw [hks, reads_append _ _ _ ks1 (k2 :: ks2) out1 r1 s2 cx hrd1]
+    simp only [reads, hread, List.take_nil, Option.map_some, List.append_nil]
+    rw [hrem]
 
 end Ws.C05
